@@ -813,6 +813,14 @@ impl<'a> VisitMut for Rw<'a> {
                 self.bump("R17.for_continue");
             }
         }
+        // A1 in expression position (`Ok(_) => println!(..)`, `.unwrap_or_else(|| eprintln!(..))`): the print becomes `()`
+        if let Expr::Macro(m) = e {
+            if is_print_macro(&m.mac) {
+                *e = parse_quote!(());
+                self.bump("A1.print_expr");
+                return;
+            }
+        }
         if self.enabled("R8") {
             // format!(..) -> an opaque String (the text of messages is outside every contract)
             if let Expr::Macro(m) = e {
